@@ -363,7 +363,7 @@ PROPS["C16"] = dict(
 # ----------------------------------------------------------------------------- C13
 _C13_PARTS = ["dary", "addr", "radix_narrow", "radix_wide"]
 PROPS["C13"] = dict(
-    units={n: dict(src=["harness/C13_heaps.cpp"], flags=["-DVERIF_PART=%d" % i])
+    units={n: dict(src=["harness/C13_heaps.cpp"], tlx=["tlx/die/core.cpp"], flags=["-DVERIF_PART=%d" % i])
            for i, n in enumerate(_C13_PARTS)},
     quick=[R(n, "asan", 2, 100) for n in _C13_PARTS] + [R(n, "plain", 2, 800) for n in _C13_PARTS],
     thorough=[R(n, "asan", 4, 8000, timeout=7200) for n in _C13_PARTS]
@@ -729,3 +729,34 @@ PROPS["C04"] = dict(
                  "address, so a replay reproduces the schedule decisions but not necessarily the same splitters",
                  SAN_ASSUME],
 )
+
+
+# ----------------------------------------------------------------------------- release-mode runs
+# All runs above keep tlx's own asserts enabled (they are monitors). The stock tests and most users
+# build with -DNDEBUG, and code whose behaviour differs once the asserts are compiled out (a needed
+# side effect inside an assert, an invariant only an assert was enforcing, a branch that the optimiser
+# removes because an assert made it unreachable) is only observed in such a build. Every property
+# whose anchored code contains asserts therefore gets release-mode runs of its main workload as well.
+def _nd(prop, quick, thorough):
+    PROPS[prop]["quick"] = PROPS[prop]["quick"] + quick
+    PROPS[prop]["thorough"] = PROPS[prop]["thorough"] + thorough
+    PROPS[prop]["rule"] += (" Release-mode runs: the main workload is repeated in an -O2 -DNDEBUG build "
+                            "(tlx's asserts compiled out, as in the stock test build).")
+
+
+_nd("C01", _bt_runs(_BT_QUICK[:3], "ndebug", 400, "C01"), _bt_runs(_BT_QUICK, "ndebug", 4000, "C01", timeout=7200))
+_nd("C03", [R("ss", "ndebug", 4, 20)], [R("ss", "ndebug", 16, 100, timeout=7200)])
+_nd("C04", [R("pss%d" % i, "ndebug", 1, 50, ["mode=serial"]) for i in range(3)],
+    [R("pss%d" % i, "ndebug", 4, 300, ["mode=serial"], timeout=7200) for i in range(3)])
+_nd("C05", [R("mwm", "ndebug", 4, 20)], [R("mwm", "ndebug", 16, 300, timeout=7200)])
+_nd("C06", [R("pms", "ndebug", 2, 20)], [R("pms", "ndebug", 8, 200, timeout=7200)])
+_nd("C07", [R("pmwm", "ndebug", 3, 100)], [R("pmwm", "ndebug", 8, 1000, timeout=7200)])
+_nd("C08", [R("part", "ndebug", 4, 20, ["mode=rand"])], [R("part", "ndebug", 16, 200, ["mode=rand"], timeout=7200)])
+_nd("C09", [R("lt", "ndebug", 4, 50)], [R("lt", "ndebug", 16, 1000, timeout=7200)])
+_nd("C10", [R("pool", "ndebug", 4, 50, ["mode=serial"])], [R("pool", "ndebug", 16, 1000, ["mode=serial"], timeout=7200)])
+_nd("C12", [R("cptr", "ndebug", 4, 200, ["mode=seq"]), R("cptr", "ndebug", 4, 40, ["mode=serial"])],
+    [R("cptr", "ndebug", 8, 4000, ["mode=seq"], timeout=7200), R("cptr", "ndebug", 8, 1000, ["mode=serial"], timeout=7200)])
+_nd("C13", [R(u, "ndebug", 1, 300) for u in ("dary", "addr", "radix_narrow", "radix_wide")],
+    [R(u, "ndebug", 4, 10000, timeout=7200) for u in ("dary", "addr", "radix_narrow", "radix_wide")])
+_nd("C16", [R("rb", "ndebug", 4, 3000)], [R("rb", "ndebug", 16, 40000, timeout=7200)])
+_nd("C17", [R("lru_splay", "ndebug", 4, 300)], [R("lru_splay", "ndebug", 16, 10000, timeout=7200)])
